@@ -1,2 +1,3 @@
 -- Root of the `RactorModel` library: every model, lemma and property module.
 import RactorModel.Props.C18
+import RactorModel.Props.C01
